@@ -410,6 +410,11 @@ def main(modname, tier, replay=None):
             results = pool.map(_shard, jobs, chunksize=1)
     for r in results:
         acc.merge(r)
+    # optional extra search phase of a check (e.g. coverage-guided fuzzing): yields failing candidates
+    extra = getattr(check, 'extra_phase', None)
+    if extra is not None:
+        for case in extra(tier, seed):
+            _run_one(check, case, tier, acc)
 
     # 4. buckets -> known / shrink + report
     for k, (size, case, fd) in sorted(acc.buckets.items(), key=lambda kv: kv[0]):
